@@ -279,7 +279,7 @@ end SockModel.Props.C01
 Generated from the clang AST of src/socket_impl.cpp on every run (Generated/Loops.lean), run in the model's world
 (`GenWorld.osWorld buf`: `::send(fd, data + off, len)` offers the bytes `(buf.drop off).take len`), tied to the
 hand-written `SendLoop.*` for every script.  Uses the tie of `Wait` from Props/C16.lean (imported).
-`Gen.SendSome` and its loop are generated as well; their tie is not proved yet (DESIGN.md §0.7). -/
+`Gen.SendSome` likewise (below). -/
 namespace SockModel.Props.C01
 open SockModel SockModel.SendLoop SockModel.Deadline SockModel.GenWorld
 
@@ -426,24 +426,48 @@ theorem tie_SendTry (buf : Bytes) (fuel : Nat) (h64 : buf.length < 2 ^ 64) (os :
         simp only [Bool.not_true, if_false, not_true_eq_false, Gen.M.bind, hq']
         cases q <;> simp [resOf, Gen.M.pure] at hqr ⊢ <;> rw [hqr]
 
-open SockModel.Props.C16 in
-/-- the loop of `SendAll`, started anywhere in the buffer: invariant `off + len = buf.length`, the model's
-`sent` is `off` -/
+section
+open SockModel.Props.C16
+/-! ### the send loops (`SendAll`, `SendSome`), shape-robust
+
+The translator gives every send loop the canonical state "offset of the next byte" (a shrinking `string_view` and a
+byte counter translate to the same loop signature: all parameters and unchanged locals as fixed arguments, the cursor
+as the only changing one besides `deadline.now`).  The proofs never name an argument expression of the generated
+code: `SendNow`'s arguments are rewritten to the canonical `↑off`, `↑len` by `sendNow_canon` with `omega` side goals,
+the induction hypothesis is applied by `rw` with the loop argument left open, and the generated `if`s are split in
+whatever polarity they come (`tie_send_step`). -/
+
+/-- whatever expressions the generated code passes to `SendNow`: if they denote offset `off` and length `len`
+(side goals for `omega`), the call is the canonical one -/
+theorem sendNow_canon (buf : Bytes) (fuel : Nat) (a b : Int) (off len : Nat) (ha : a = (off : Int)) (hb : b = (len : Int)) (w : WSt) :
+    Gen.SendNow (osWorld buf) fuel a b w = Gen.SendNow (osWorld buf) fuel (off : Int) (len : Int) w := by
+  subst ha hb; rfl
+
+/-- the two exits / the continuation of a send loop after `k` more bytes were taken: closes a goal whose
+generated side is an `if` in whatever polarity and arithmetic form -/
+macro "tie_send_step" ih:term : tactic => `(tactic| (
+  try split
+  all_goals (try simp only [and_true, true_and, or_false, false_or, and_false, false_and, or_true, true_or,
+    not_true_eq_false, not_false_eq_true] at *)
+  all_goals first
+    | (exfalso; omega)
+    | (simp [Gen.M.pure, resOf]; omega)
+    | (rw [$ih:term]; all_goals first | omega | (simp [List.drop_drop, Nat.add_comm]; done))))
+
 theorem sendAll_loop_tie (buf : Bytes) (fuel : Nat) (h64 : buf.length < 2 ^ 64) :
-    ∀ (n off len : Nat) (os : Os) (i : Bool) (e : Nat), off + len = buf.length → os.polls.length < fuel →
-      os.sends.length < n →
-      (resOf Int.toNat (Gen.SendAll_loop1 (osWorld buf) fuel buf.length (-1) n off len ⟨os, i, e⟩).1,
-        (Gen.SendAll_loop1 (osWorld buf) fuel buf.length (-1) n off len ⟨os, i, e⟩).2.os)
+    ∀ (n : Nat) (a : Int) (off : Nat) (os : Os) (i : Bool) (e : Nat), a = off → off ≤ buf.length →
+      os.polls.length < fuel → os.sends.length < n →
+      (resOf Int.toNat (Gen.SendAll_loop1 (osWorld buf) fuel 0 buf.length (-1) n a ⟨os, i, e⟩).1,
+        (Gen.SendAll_loop1 (osWorld buf) fuel 0 buf.length (-1) n a ⟨os, i, e⟩).2.os)
         = sendAllLoop (os.sends.length + 1) (buf.drop off) off os := by
   intro n
   induction n with
-  | zero => intro off len os i e _ _ h; omega
+  | zero => intro a off os i e _ _ _ h; omega
   | succ n ih =>
-    intro off len os i e hinv hp hs
+    intro a off os i e ha hinv hp hs
     obtain ⟨g, i1, e1, hg, hr⟩ := waitWritable_run buf fuel (-1) os i e hp
-    unfold Gen.SendAll_loop1
     rw [sendAllLoop]
-    simp only [Gen.M.bind, hg]
+    simp only [Gen.SendAll_loop1, Gen.M.bind, hg]
     cases hw : wait (-1) os with
     | mk r os1 =>
       have hwf := wait_spec hw (by decide) (by decide)
@@ -455,10 +479,15 @@ theorem sendAll_loop_tie (buf : Bytes) (fuel : Nat) (h64 : buf.length < 2 ^ 64) 
       | ok b =>
         simp only [resOf, id] at hr
         subst hr
-        obtain ⟨q, i2, e2, hq, hqr, hpos⟩ := sendNow_run buf fuel off len (by omega) (by omega) os1 i1 e1
-        have hb : (buf.drop off).take len = buf.drop off := by
-          apply List.take_of_length_le; simp; omega
+        obtain ⟨q, i2, e2, hq, hqr, hpos⟩ :=
+          sendNow_run buf fuel off (buf.length - off) (by omega) (by omega) os1 i1 e1
+        have hb : (buf.drop off).take (buf.length - off) = buf.drop off := by
+          apply List.take_of_length_le; simp
         rw [hb] at hq hqr
+        dsimp only
+        rw [sendNow_canon buf fuel _ _ off (buf.length - off) ?ha ?hb]
+        case ha => omega
+        case hb => omega
         simp only [hq]
         cases hsn : sendNow (buf.drop off) os1 with
         | mk sr os2 =>
@@ -474,37 +503,175 @@ theorem sendAll_loop_tie (buf : Bytes) (fuel : Nat) (h64 : buf.length < 2 ^ 64) 
             have hv : 0 ≤ v := hpos v rfl
             obtain ⟨hpl, _, _, _, _, hsl, m, hm, _, hmk⟩ := hsf
             have hk := (hmk v.toNat rfl).1
-            have hlen : (buf.drop off).length = len := by simp; omega
+            have hlen : (buf.drop off).length = buf.length - off := by simp
             have hsl' := hsl (by simp)
-            have hvk : v = ((v.toNat : Nat) : Int) := by omega
-            by_cases hz : len - v.toNat = 0
-            · have h1 : (len : Int) - v = 0 := by omega
-              have h2 : (buf.drop off).drop v.toNat = [] := by
+            have h6 : os2.sends.length + 1 = os.sends.length := by rw [← hwf.2.1]; exact hsl'
+            have hpl2 : os2.polls.length < fuel := by rw [hpl]; omega
+            by_cases hz : off + v.toNat = buf.length
+            · have h2 : (buf.drop off).drop v.toNat = [] := by
                 apply List.drop_of_length_le; omega
-              have h3 : (((buf.length : Int) - ((len : Int) - v)) % 18446744073709551616).toNat = off + v.toNat := by omega
-              simp [h1, h2, Gen.M.pure, resOf]
-              omega
-            · have h1 : ¬ (len : Int) - v = 0 := by omega
-              have h2 : ((buf.drop off).drop v.toNat).isEmpty = false := by
+              simp only [h2, List.isEmpty_nil, if_true]
+              tie_send_step (ih _ (off + v.toNat) os2 i2 e2 ?_ ?_ ?_ ?_)
+            · have h2 : ((buf.drop off).drop v.toNat).isEmpty = false := by
                 cases hd : (buf.drop off).drop v.toNat with
                 | nil => have := congrArg List.length hd; simp at this; omega
                 | cons _ _ => rfl
-              have hih := ih (off + v.toNat) (len - v.toNat) os2 i2 e2 (by omega) (by rw [hpl]; omega) (by rw [← hwf.2.1] at hs; omega)
-              have h4 : (off : Int) + v = ((off + v.toNat : Nat) : Int) := by omega
-              have h5 : (len : Int) - v = ((len - v.toNat : Nat) : Int) := by omega
-              have h6 : os2.sends.length + 1 = os.sends.length := by rw [← hwf.2.1]; exact hsl'
-              rw [h6] at hih
-              simp only [h1, h2, h4, h5, not_false_eq_true, if_true, if_false, Bool.false_eq_true]
-              simpa [List.drop_drop, Nat.add_comm, hz] using hih
+              simp only [h2, if_false, Bool.false_eq_true, ← h6]
+              tie_send_step (ih _ (off + v.toNat) os2 i2 e2 ?_ ?_ ?_ ?_)
 
-/-- **tie of `SendAll`**: on every script, with a fuel above the number of scripted `poll` and `send` answers, the
-function generated from the C++ source returns what the model's `sendAll` returns (count / exception) and leaves
-the same OS behind (same calls with the same arguments and bytes, same clock, same rest of the script) -/
 theorem tie_SendAll (buf : Bytes) (fuel : Nat) (h64 : buf.length < 2 ^ 64) (os : Os) (i : Bool) (e : Nat)
     (hp : os.polls.length < fuel) (hs : os.sends.length < fuel) :
     (resOf Int.toNat (Gen.SendAll (osWorld buf) fuel 0 buf.length ⟨os, i, e⟩).1,
       (Gen.SendAll (osWorld buf) fuel 0 buf.length ⟨os, i, e⟩).2.os) = sendAll buf os := by
-  have := sendAll_loop_tie buf fuel h64 (Gen.loopFuel fuel) 0 buf.length os i e (by omega) hp hs
+  have := sendAll_loop_tie buf fuel h64 (Gen.loopFuel fuel) 0 0 os i e (by simp) (by omega) hp hs
   unfold Gen.SendAll sendAll
   simpa using this
+
+/-- a wait leaves the `send` script alone and does not lengthen the `poll` script (no bound on the timeout) -/
+theorem wait_frame (T : Int) (os : Os) :
+    (wait T os).2.sends = os.sends ∧ (wait T os).2.polls.length ≤ os.polls.length := by
+  have key1 : ∀ (t : Int) (f : Nat) (os : Os),
+      (waitFixed t f os).2.sends = os.sends ∧ (waitFixed t f os).2.polls.length ≤ os.polls.length := by
+    intro t f
+    induction f with
+    | zero => intro os; simp [waitFixed]
+    | succ f ih =>
+      intro os
+      rw [waitFixed]
+      cases hp : pollOnce t os with
+      | none => simp
+      | some p =>
+        obtain ⟨a, os'⟩ := p
+        have h1 := (pollOnce_calls hp).2.1
+        have h2 := pollOnce_polls hp
+        cases a <;> simp only <;> (try exact ⟨h1, by omega⟩)
+        have := ih os'
+        exact ⟨by rw [this.1, h1], by omega⟩
+  have key2 : ∀ (dl : Int) (f : Nat) (os : Os),
+      (waitLimited dl f os).2.sends = os.sends ∧ (waitLimited dl f os).2.polls.length ≤ os.polls.length := by
+    intro dl f
+    induction f with
+    | zero => intro os; simp [waitLimited]
+    | succ f ih =>
+      intro os
+      rw [waitLimited]
+      cases hp : pollOnce (toMsec (Deadline.limited os.now dl).remaining) os with
+      | none => simp
+      | some p =>
+        obtain ⟨a, os'⟩ := p
+        have h1 := (pollOnce_calls hp).2.1
+        have h2 := pollOnce_polls hp
+        cases a <;> simp only <;> (try exact ⟨h1, by omega⟩)
+        have := ih os'
+        exact ⟨by rw [this.1, h1], by omega⟩
+  unfold wait
+  try split
+  · exact key1 _ _ _
+  · exact key2 _ _ _
+
+theorem gen_timeLeft (now dl : Int) : (Gen.DeadlineLimited_TimeLeft now dl = true) = (now < dl) := by
+  simp only [Gen.DeadlineLimited_TimeLeft]
+  apply propext
+  constructor <;> intro h
+  · have : decide (now < dl) = true := by revert h; tie_bool_arith
+    simpa using this
+  · have : decide (now < dl) = true := by simpa using h
+    revert this; tie_bool_arith
+
+theorem sendSome_loop_tie (buf : Bytes) (fuel : Nat) (h64 : buf.length < 2 ^ 64) (dnow0 dl : Int) :
+    ∀ (n : Nat) (a : Int) (off : Nat) (dnow : Int) (os : Os) (i : Bool) (e : Nat), a = off → off ≤ buf.length →
+      os.polls.length < fuel → os.sends.length < n →
+      (resOf Int.toNat (Gen.SendSome_loop1 (osWorld buf) fuel 0 buf.length dnow0 dl n dnow a ⟨os, i, e⟩).1,
+        (Gen.SendSome_loop1 (osWorld buf) fuel 0 buf.length dnow0 dl n dnow a ⟨os, i, e⟩).2.os)
+        = sendSomeLoop dl (os.sends.length + 1) (buf.drop off) off dnow os := by
+  intro n
+  induction n with
+  | zero => intro a off dnow os i e _ _ _ h; omega
+  | succ n ih =>
+    intro a off dnow os i e ha hinv hp hs
+    obtain ⟨g, i1, e1, hg, hr⟩ := waitWritable_run buf fuel (Deadline.limited dnow dl).remaining os i e hp
+    rw [sendSomeLoop]
+    simp only [Gen.SendSome_loop1, Gen.M.bind, gen_remaining, hg]
+    have hwf := wait_frame (Deadline.limited dnow dl).remaining os
+    cases hw : wait (Deadline.limited dnow dl).remaining os with
+    | mk r os1 =>
+      rw [hw] at hr hwf
+      simp only at hr hwf
+      cases g with
+      | halted => simp only [resOf] at hr; subst hr; simp [resOf]
+      | thrown x => simp only [resOf] at hr; subst hr; simp [resOf]
+      | ok b =>
+        simp only [resOf, id] at hr
+        subst hr
+        cases b with
+        | false =>
+          simp only [Bool.false_eq_true, not_false_eq_true, if_true, if_false]
+          simp [Gen.M.pure, resOf]
+          omega
+        | true =>
+          simp only [not_true_eq_false, if_true, if_false, Gen.M.bind, Gen.Clocked_Tick, clockNow_eq, Gen.M.pure]
+          obtain ⟨q, i2, e2, hq, hqr, hpos⟩ :=
+            sendNow_run buf fuel off (buf.length - off) (by omega) (by omega) os1 i1 e1
+          have hb : (buf.drop off).take (buf.length - off) = buf.drop off := by
+            apply List.take_of_length_le; simp
+          rw [hb] at hq hqr
+          rw [sendNow_canon buf fuel _ _ off (buf.length - off) ?ha ?hb]
+          case ha => omega
+          case hb => omega
+          simp only [hq]
+          cases hsn : sendNow (buf.drop off) os1 with
+          | mk sr os2 =>
+            have hsf := sendNow_facts hsn
+            rw [hsn] at hqr
+            simp only at hqr
+            cases q with
+            | halted => simp only [resOf] at hqr; subst hqr; simp [resOf]
+            | thrown x => simp only [resOf] at hqr; subst hqr; simp [resOf]
+            | ok v =>
+              simp only [resOf] at hqr
+              subst hqr
+              have hv : 0 ≤ v := hpos v rfl
+              obtain ⟨hpl, _, hnow, _, _, hsl, m, hm, _, hmk⟩ := hsf
+              have hk := (hmk v.toNat rfl).1
+              have hlen : (buf.drop off).length = buf.length - off := by simp
+              have hsl' := hsl (by simp)
+              have h6 : os2.sends.length + 1 = os.sends.length := by rw [← hwf.1]; exact hsl'
+              have hpl2 : os2.polls.length < fuel := by rw [hpl]; omega
+              simp only [gen_timeLeft]
+              by_cases hz : off + v.toNat = buf.length
+              · have h2 : (buf.drop off).drop v.toNat = [] := by
+                  apply List.drop_of_length_le; omega
+                simp only [h2, List.isEmpty_nil, true_or, if_true]
+                tie_send_step (ih _ (off + v.toNat) os1.now os2 i2 e2 ?_ ?_ ?_ ?_)
+              · have h2 : ((buf.drop off).drop v.toNat).isEmpty = false := by
+                  cases hd : (buf.drop off).drop v.toNat with
+                  | nil => have := congrArg List.length hd; simp at this; omega
+                  | cons _ _ => rfl
+                by_cases ht : os1.now < dl
+                · simp only [h2, ht, Bool.false_eq_true, not_true_eq_false, or_self, if_false, ← h6]
+                  tie_send_step (ih _ (off + v.toNat) os1.now os2 i2 e2 ?_ ?_ ?_ ?_)
+                · simp only [h2, ht, Bool.false_eq_true, not_false_eq_true, or_true, if_true]
+                  tie_send_step (ih _ (off + v.toNat) os1.now os2 i2 e2 ?_ ?_ ?_ ?_)
+
+/-- **tie of `SendSome(fd, data, size, deadline)`** for every state of the caller's deadline object -/
+theorem tie_SendSome (buf : Bytes) (fuel : Nat) (h64 : buf.length < 2 ^ 64) (dnow dl : Int) (os : Os) (i : Bool) (e : Nat)
+    (hp : os.polls.length < fuel) (hs : os.sends.length < fuel) :
+    (resOf Int.toNat (Gen.SendSome (osWorld buf) fuel 0 buf.length dnow dl ⟨os, i, e⟩).1,
+      (Gen.SendSome (osWorld buf) fuel 0 buf.length dnow dl ⟨os, i, e⟩).2.os)
+      = sendSomeLoop dl (os.sends.length + 1) buf 0 dnow os := by
+  have := sendSome_loop_tie buf fuel h64 dnow dl (Gen.loopFuel fuel) 0 0 dnow os i e (by simp) (by omega) hp hs
+  unfold Gen.SendSome
+  simpa using this
+
+/-- ... and as `SocketImpl::Send` calls it (`DeadlineLimited deadline(timeout)` constructed at the current clock
+reading): the model's `sendSome` -/
+theorem tie_SendSome_send (buf : Bytes) (fuel : Nat) (h64 : buf.length < 2 ^ 64) (t : Int) (os : Os) (i : Bool) (e : Nat)
+    (hp : os.polls.length < fuel) (hs : os.sends.length < fuel) :
+    (resOf Int.toNat
+        (Gen.SendSome (osWorld buf) fuel 0 buf.length os.now (Gen.DeadlineLimited_deadline os.now t) ⟨os, i, e⟩).1,
+      (Gen.SendSome (osWorld buf) fuel 0 buf.length os.now (Gen.DeadlineLimited_deadline os.now t) ⟨os, i, e⟩).2.os)
+      = sendSome buf t os := by
+  rw [tie_SendSome buf fuel h64 _ _ os i e hp hs]
+  simp only [sendSome, Gen.DeadlineLimited_deadline, nsPerMs]
+end
 end SockModel.Props.C01
